@@ -1381,3 +1381,179 @@ Theorem inv_reachable limits gated ops : Inv (run (init limits gated) ops).
 Proof. apply inv_run; [apply wf_init|apply inv_init]. Qed.
 Theorem inv_reachable_q limits gated ops : Inv (qrun (init limits gated) ops).
 Proof. apply inv_qrun; [apply wf_init|apply inv_init]. Qed.
+
+(* ------------------------------------------------------------------ reachable states *)
+Definition reachable (h : hub) : Prop :=
+  exists limits gated ops, h = run (init limits gated) ops \/ h = qrun (init limits gated) ops.
+Theorem reachable_inv h : reachable h -> Inv h.
+Proof. intros (l & g & ops & [->| ->]); [apply inv_reachable|apply inv_reachable_q]. Qed.
+Theorem reachable_wf h : reachable h -> WF h.
+Proof. intros (l & g & ops & [->| ->]); [apply wf_reachable|apply wf_reachable_q]. Qed.
+
+(* 1. ownership: every open object is in the tables of a live session, and only of that one *)
+Theorem own_reachable h : reachable h ->
+  forall tok, In tok h.(h_mcuopen) ->
+  exists sid s, get_sess h sid = Some s /\ In tok (map snd s.(s_pubs) ++ map snd s.(s_subs)).
+Proof. intros R. exact (i_own _ (reachable_inv h R)). Qed.
+
+Theorem owner_unique h : Inv h -> forall tok, In tok h.(h_mcuopen) ->
+  exists sid s, get_sess h sid = Some s /\ In tok (map snd s.(s_pubs) ++ map snd s.(s_subs)) /\
+    forall sid' s', get_sess h sid' = Some s' -> In tok (map snd s'.(s_pubs) ++ map snd s'.(s_subs)) -> sid' = sid.
+Proof.
+  intros I tok Hin. destruct (i_own _ I tok Hin) as (sid & s & Hs & Ht). exists sid, s. split; [assumption|]. split; [assumption|].
+  intros sid' s' Hs' Ht'. eapply (u_sess _ (i_uniq _ I)); eauto.
+Qed.
+
+(* the converse: what a live session has in its tables is open at the media server *)
+Theorem held_reachable h : reachable h ->
+  forall sid s tok, get_sess h sid = Some s -> In tok (map snd s.(s_pubs) ++ map snd s.(s_subs)) -> In tok h.(h_mcuopen).
+Proof. intros R. exact (i_held _ (reachable_inv h R)). Qed.
+
+(* nothing outlives its owner: a token that no live session holds is not open *)
+Theorem nothing_outlives_owner h : reachable h -> forall tok,
+  (forall sid s, get_sess h sid = Some s -> ~ In tok (map snd s.(s_pubs) ++ map snd s.(s_subs))) -> ~ In tok h.(h_mcuopen).
+Proof. intros R tok Hn Hin. destruct (own_reachable h R tok Hin) as (sid & s & Hs & Ht). eapply Hn; eauto. Qed.
+
+(* 2. no duplicates *)
+Theorem nodup_reachable h : reachable h ->
+  NoDup h.(h_mcuopen) /\
+  (forall sid s, get_sess h sid = Some s ->
+     NoDup (map fst s.(s_pubs)) /\ NoDup (map fst s.(s_subs)) /\ NoDup (map snd s.(s_pubs) ++ map snd s.(s_subs))).
+Proof.
+  intros R. pose proof (reachable_inv h R) as I. split; [apply I|]. intros sid s Hs. pose proof (i_uniq _ I) as U.
+  split; [eapply u_keys; eauto|]. split; [eapply u_skeys; eauto|]. apply (u_slot _ U sid s Hs).
+Qed.
+
+(* at most one publisher per session and stream type *)
+Theorem one_publisher_per_stream h : reachable h -> forall sid s stream t1 t2,
+  get_sess h sid = Some s -> In (stream, t1) s.(s_pubs) -> In (stream, t2) s.(s_pubs) -> t1 = t2.
+Proof.
+  intros R sid s stream t1 t2 Hs H1 H2. destruct (nodup_reachable h R) as [_ Hn]. destruct (Hn sid s Hs) as [Hk _].
+  clear - Hk H1 H2. induction (s_pubs s) as [|[st t] l IH]; [destruct H1|]. cbn in Hk. inversion Hk as [|? ? Hx Hl]; subst.
+  destruct H1 as [H1|H1], H2 as [H2|H2].
+  - congruence.
+  - injection H1 as -> ->. exfalso. apply Hx. apply in_map_iff. exists (stream, t2). auto.
+  - injection H2 as -> ->. exfalso. apply Hx. apply in_map_iff. exists (stream, t1). auto.
+  - auto.
+Qed.
+
+(* ------------------------------------------------------------------ closing and leaving release *)
+Lemma close_all_gone kids sid : forall hh o, get_sess hh sid = None -> get_sess (fst (close_all kids (hh, o))) sid = None.
+Proof.
+  induction kids as [|k kids IH]; intros hh o Hn; cbn [close_all fold_left fst]; [exact Hn|].
+  destruct (close_one hh k) as [h1 o1] eqn:Hc. fold (close_all kids (h1, o ++ o1)). apply IH.
+  rewrite (fst_eq _ _ _ Hc). destruct (N.eq_dec sid k) as [->|Hne]; [apply close_one_gone|].
+  pose proof (close_one_core hh k sid Hne) as Hq. rewrite Hn in Hq. destruct (get_sess (fst (close_one hh k)) sid); [discriminate|reflexivity].
+Qed.
+Lemma close_session_gone h sid : get_sess (fst (close_session h sid)) sid = None.
+Proof.
+  unfold close_session. destruct (close_one h sid) as [h1 o1] eqn:Hc.
+  fold (close_all (children h sid) (h1, o1)). apply close_all_gone. rewrite (fst_eq _ _ _ Hc). apply close_one_gone.
+Qed.
+
+(* after a session is closed, nothing it held is open (any state) *)
+Theorem close_session_closes h sid s tok :
+  get_sess h sid = Some s -> In tok (map snd s.(s_pubs) ++ map snd s.(s_subs)) ->
+  ~ In tok (h_mcuopen (fst (close_session h sid))).
+Proof.
+  intros Hs Ht Hin. destruct (r_own _ _ _ (rel_close_session none1 h sid) tok sid s Hin Hs Ht) as [s' [Hs' _]].
+  rewrite close_session_gone in Hs'. discriminate.
+Qed.
+Theorem close_one_closes h sid s tok :
+  get_sess h sid = Some s -> In tok (map snd s.(s_pubs) ++ map snd s.(s_subs)) ->
+  ~ In tok (h_mcuopen (fst (close_one h sid))).
+Proof.
+  intros Hs Ht Hin. destruct (r_own _ _ _ (rel_close_one none1 h sid) tok sid s Hin Hs Ht) as [s' [Hs' _]].
+  rewrite close_one_gone in Hs'. discriminate.
+Qed.
+
+Lemma room_remove_sessions h k sid : h_sessions (room_remove h k sid) = h_sessions h.
+Proof.
+  unfold room_remove. destruct (room_of h k) as [r|]; [|reflexivity]. destruct (nmem sid (r_members r)); [|reflexivity].
+  unfold publish, remove_room_if_empty.
+  match goal with |- context [room_of ?hh k] => destruct (room_of hh k) as [r1|] end; [destruct (r_members r1)|]; reflexivity.
+Qed.
+Lemma leave_room_released h sid n s k s' :
+  get_sess h sid = Some s -> s_room s = Some k -> is_virtual (s_kind s) = false ->
+  get_sess (fst (leave_room h sid n)) sid = Some s' -> toks s' = [].
+Proof.
+  intros Hs Hk Hv. unfold leave_room. rewrite Hs, Hk, Hv.
+  match goal with |- context [release_mcu ?hh sid] => destruct (release_mcu hh sid) as [h3 o2] eqn:Hr end. cbn [fst].
+  unfold get_sess. rewrite room_remove_sessions. intros H.
+  match type of Hr with release_mcu ?hh sid = _ => apply (release_mcu_empty hh sid s') end. rewrite Hr. exact H.
+Qed.
+(* after a (non-virtual) session left its room, nothing it held is open *)
+Theorem leave_room_closes h sid n s k tok :
+  get_sess h sid = Some s -> s_room s = Some k -> is_virtual (s_kind s) = false ->
+  In tok (map snd s.(s_pubs) ++ map snd s.(s_subs)) -> ~ In tok (h_mcuopen (fst (leave_room h sid n))).
+Proof.
+  intros Hs Hk Hv Ht Hin. destruct (r_own _ _ _ (rel_leave_room none1 h sid n) tok sid s Hin Hs Ht) as [s' [Hs' Ht']].
+  rewrite (leave_room_released h sid n s k s' Hs Hk Hv Hs') in Ht'. destruct Ht'.
+Qed.
+(* ... and the same when it leaves the call *)
+Theorem leave_call_closes h sid s k tok :
+  get_sess h sid = Some s -> s_room s = Some k -> is_virtual (s_kind s) = false ->
+  In tok (map snd s.(s_pubs) ++ map snd s.(s_subs)) -> ~ In tok (h_mcuopen (fst (leave_call h sid))).
+Proof.
+  intros Hs Hk Hv Ht Hin. destruct (r_own _ _ _ (rel_leave_call none1 h sid) tok sid s Hin Hs Ht) as [s' [Hs' Ht']].
+  unfold leave_call in Hs'. rewrite Hs, Hk in Hs'. destruct (s_kind s); try discriminate;
+    rewrite (release_mcu_empty h sid s' Hs') in Ht'; destruct Ht'.
+Qed.
+(* a publisher the permissions no longer allow is closed by the revocation *)
+Theorem revoke_closes h sid s stream tok :
+  get_sess h sid = Some s -> In (stream, tok) s.(s_pubs) ->
+  offer_allowed s.(s_perms) stream (media_of s.(s_pubmedia) tok) = false ->
+  ~ In tok (h_mcuopen (fst (revoke h sid))).
+Proof.
+  intros Hs Hin Hoff. rewrite revoke_eq, Hs. unfold close_tokens. cbn [fst]. msimpl. rewrite in_fold_nrem.
+  intros [_ Hn]. apply Hn. apply in_map_iff. exists (stream, tok). split; [reflexivity|]. apply filter_In. split; [assumption|].
+  rewrite pub_bad_spec, Hoff. reflexivity.
+Qed.
+
+(* ------------------------------------------------------------------ 3. permissions *)
+Theorem hold_reachable h : reachable h -> forall sid s stream tok,
+  get_sess h sid = Some s -> is_virtual s.(s_kind) = false -> In (stream, tok) s.(s_pubs) ->
+  offer_allowed s.(s_perms) stream (media_of s.(s_pubmedia) tok) = true.
+Proof. intros R sid s stream tok Hs Hv Hin. exact (i_hold _ (reachable_inv h R) sid s Hs Hv stream tok Hin). Qed.
+
+(* readable forms *)
+Theorem screen_publisher_needs_permission h : reachable h -> forall sid s tok,
+  get_sess h sid = Some s -> is_virtual s.(s_kind) = false -> In (2, tok) s.(s_pubs) -> has_perm s.(s_perms) P_SCREEN = true.
+Proof. intros R sid s tok Hs Hv Hin. exact (hold_reachable h R sid s 2 tok Hs Hv Hin). Qed.
+Theorem audio_publisher_needs_permission h : reachable h -> forall sid s stream tok,
+  get_sess h sid = Some s -> is_virtual s.(s_kind) = false -> In (stream, tok) s.(s_pubs) -> stream <> 2 ->
+  N.testbit (media_of s.(s_pubmedia) tok) 0 = true -> has_perm s.(s_perms) P_MEDIA = true \/ has_perm s.(s_perms) P_AUDIO = true.
+Proof.
+  intros R sid s stream tok Hs Hv Hin Hst Hb. pose proof (hold_reachable h R sid s stream tok Hs Hv Hin) as H.
+  unfold offer_allowed in H. destruct (N.eqb_spec stream 2); [contradiction|]. rewrite Hb in H. cbn [negb orb] in H.
+  apply andb_prop in H as [H _]. now apply orb_prop in H.
+Qed.
+Theorem video_publisher_needs_permission h : reachable h -> forall sid s stream tok,
+  get_sess h sid = Some s -> is_virtual s.(s_kind) = false -> In (stream, tok) s.(s_pubs) -> stream <> 2 ->
+  N.testbit (media_of s.(s_pubmedia) tok) 1 = true -> has_perm s.(s_perms) P_MEDIA = true \/ has_perm s.(s_perms) P_VIDEO = true.
+Proof.
+  intros R sid s stream tok Hs Hv Hin Hst Hb. pose proof (hold_reachable h R sid s stream tok Hs Hv Hin) as H.
+  unfold offer_allowed in H. destruct (N.eqb_spec stream 2); [contradiction|]. rewrite Hb in H. cbn [negb orb] in H.
+  apply andb_prop in H as [_ H]. now apply orb_prop in H.
+Qed.
+(* a session whose backend granted none of the publish permissions has no screen publisher and no
+   publisher carrying audio or video *)
+Theorem no_publish_permission_no_media h : reachable h -> forall sid s p stream tok,
+  get_sess h sid = Some s -> is_virtual s.(s_kind) = false -> s.(s_perms) = Some p ->
+  N.testbit p P_AUDIO = false -> N.testbit p P_VIDEO = false -> N.testbit p P_SCREEN = false -> N.testbit p P_MEDIA = false ->
+  In (stream, tok) s.(s_pubs) ->
+  stream <> 2 /\ N.testbit (media_of s.(s_pubmedia) tok) 0 = false /\ N.testbit (media_of s.(s_pubmedia) tok) 1 = false.
+Proof.
+  intros R sid s p stream tok Hs Hv Hp Ha Hvi Hsc Hm Hin. pose proof (hold_reachable h R sid s stream tok Hs Hv Hin) as H.
+  unfold offer_allowed in H. rewrite Hp in H. cbn [has_perm] in H. rewrite Ha, Hvi, Hsc, Hm in H.
+  destruct (N.eqb_spec stream 2); [discriminate|]. split; [assumption|].
+  destruct (N.testbit (media_of (s_pubmedia s) tok) 0), (N.testbit (media_of (s_pubmedia s) tok) 1); try discriminate. auto.
+Qed.
+
+(* ------------------------------------------------------------------ 4. requesting another session's stream *)
+Theorem request_needs_same_call h c sid s n stream media :
+  n <> sid -> same_call h sid s n = false ->
+  do_media h c sid s (RSession (IdPub n)) 1 stream media = (h, [ToConn c (SError E_not_allowed)]).
+Proof.
+  intros Hne Hsc. unfold do_media. cbn [N.eqb]. destruct (N.eqb_spec n sid); [contradiction|]. now rewrite Hsc.
+Qed.
